@@ -1,5 +1,5 @@
 (* C14 — the finite decision table of _dist_sample. *)
-From Coq Require Import List Bool.
+From Coq Require Import List Bool String.
 Import ListNotations.
 From TD Require Import Model.C14_Interact.
 
@@ -69,3 +69,19 @@ Definition tanh_normal_like : dcap :=
      c_mean := CNotImpl; has_rsample := true |}.
 Lemma interact_table_before_fix_refuted : exists it d, dist_sample_gen false it d <> spec_sample it d.
 Proof. exists TMean, tanh_normal_like. vm_compute. discriminate. Qed.
+
+(* _requires_sample = "some sample key of the final module is not produced upstream" *)
+Lemma requires_sample_spec : forall ks up,
+  requires_sample (Some ks) up = true <-> exists k, List.In k ks /\ ~ List.In k up.
+Proof.
+  intros ks up. unfold requires_sample. rewrite existsb_exists. split.
+  - intros [k [Hk H]]. exists k. split; [assumption|]. intro HI. apply negb_true_iff in H.
+    assert (E : existsb (fun u => if list_eq_dec string_dec k u then true else false) up = true).
+    { apply existsb_exists. exists k. split; [assumption|]. now destruct (list_eq_dec string_dec k k). }
+    congruence.
+  - intros [k [Hk Hn]]. exists k. split; [assumption|]. apply negb_true_iff.
+    destruct (existsb (fun u => if list_eq_dec string_dec k u then true else false) up) eqn:E; [|reflexivity].
+    apply existsb_exists in E as [u [Hu E]]. destruct (list_eq_dec string_dec k u); [subst; contradiction|discriminate].
+Qed.
+Lemma requires_sample_none : forall up, requires_sample None up = true.
+Proof. reflexivity. Qed.
